@@ -677,3 +677,48 @@ def rf75(run):
     if n < 8:
         raise F.AnalysisBroken('binary reader: only %d payload reads found' % n)
     return n
+
+
+# ---------------------------------------------------------------------------------------------
+# RF80: the string writer prints every byte of the string
+# ---------------------------------------------------------------------------------------------
+
+def rf80(run):
+    from lib import linstate as LS
+    rule = 'RF80'
+    run.rule(rule, 'MIR_output_str (used for string operands by the text writer and by mir2c): the loop that prints the bytes runs from 0 to '
+                   'str.len on every path (exact linear forms, forking on undecidable conditions).  The scanner appends a terminating zero '
+                   'only to a payload that does not end in one, so a writer that drops a final zero byte changes strings ending in two '
+                   'zero bytes and the one-byte string "\\0"')
+    tu = run.tu('mir')
+    f = tu.func('MIR_output_str')
+    run.functions_analysed.add(('mir', f.name))
+    stmts = F.kids(f.body)
+    loops = [i for i, s_ in enumerate(stmts) if s_['k'] == 'ForStmt']
+    if len(loops) != 1:
+        raise F.AnalysisBroken('MIR_output_str: the byte loop was not found at the top level of the function')
+    li = loops[0]
+    loop = stmts[li]
+    sym = LS.Sym()
+    states = sym.run(stmts[:li], {}, None)
+    cond = F.strip(loop['c'][1])
+    init = loop['c'][0]
+    if not (cond['k'] == 'BinaryOperator' and cond['op'] == '<'):
+        raise F.AnalysisBroken('MIR_output_str: loop condition is not `i < bound`')
+    n = 0
+    want = LS.Lin({'str.len': 1})
+    forms = set()
+    for st in states:
+        st2 = sym.run([init], dict(st), None)[0] if init is not None else st
+        lo = sym.ev(cond['c'][0], st2)
+        hi = sym.ev(cond['c'][1], st2)
+        forms.add((repr(lo), repr(hi)))
+        n += 1
+        ok = lo.key() == LS.Lin(const=0).key() and hi.key() == want.key()
+        run.ob(rule, ('path', n), ok, {'first index': repr(lo), 'bound': repr(hi)})
+        if not ok:
+            run.violation(rule, f, 'bytes printed', 'on a path through MIR_output_str the byte loop runs from %r to %r instead of 0 to str.len: '
+                          'bytes of the string are not written (a final zero byte dropped by the writer is only restored by the scanner when '
+                          'the remaining payload does not itself end in a zero byte)' % (lo, hi), line=loop['l'])
+            break
+    return n
